@@ -106,7 +106,7 @@ func (w *c17World) handler(name string, args ...any) {
 		}
 	}
 	w.mu.Unlock()
-	if !pass {
+	if !pass && (name == "vigil.dec" || name == "vigil.checked") {
 		select {
 		case w.events <- strings.TrimPrefix(name, "vigil."):
 		default:
